@@ -150,4 +150,23 @@ example :
      | .ok m => lookupTxt m.entries NONE [0x6b] == some [0x39]
      | .error _ => false) = true := by decide
 
+/-! ### known finding F14, stated outright
+
+The property asks that a drop-in be ignored completely when a later consulted file has its name.
+`C01_lookup` proves this for every file of the list **but the first** – it is the `…_partial` form of
+the claim: the full claim is false of the model and of the implementation alike when no main file
+exists and the first drop-in is masked.  The witness below is the negation on a concrete history
+(kernel-checked); the scenario `f14witness` of `checks/C01.py` replays the same situation on the library on every run, and
+`tests/tst-getconfdirs5` pins the behaviour, which is why it is a known finding and not a repair. -/
+
+/-- `/usr/etc/p.d/a.conf` (`only=1`) and `/etc/p.d/a.conf` (`x=2`), no main file: the first drop-in has
+    the name of a later one and yet its key is in the merged result -/
+theorem C01_F14_witness :
+    let first : KeyFile := { entries := [⟨NONE, [0x6f, 0x6e, 0x6c, 0x79], some [0x31], none, none, 1, false⟩], groups := [NONE],
+                             path := some [0x2f, 0x75, 0x73, 0x72, 0x2f, 0x65, 0x74, 0x63, 0x2f, 0x70, 0x2e, 0x64, 0x2f, 0x61, 0x2e, 0x63, 0x6f, 0x6e, 0x66] }
+    let later : KeyFile := { entries := [⟨NONE, [0x78], some [0x32], none, none, 1, false⟩], groups := [NONE],
+                             path := some [0x2f, 0x65, 0x74, 0x63, 0x2f, 0x70, 0x2e, 0x64, 0x2f, 0x61, 0x2e, 0x63, 0x6f, 0x6e, 0x66] }
+    masked first [later] = true ∧
+    lookupTxt (mergeRest first [later]).entries NONE [0x6f, 0x6e, 0x6c, 0x79] = some [0x31] := by decide
+
 end Econf
